@@ -12,7 +12,7 @@ import re
 import shutil
 
 WAVES = [("/tmp/seed", "seed", ""), ("/tmp/seed2", "seed2", "-2"), ("/tmp/seed3", "seed3", "-3"), ("/tmp/seed4", "seed4", "-4"),
-         ("/tmp/seed5", "seed5", "-5")]
+         ("/tmp/seed5", "seed5", "-5"), ("/tmp/seed6", "seed6", "-6")]
 # changes that are caught by the check of another property (the other check's id)
 CAUGHT_BY = {}
 OUT = "/verif/seeded"
@@ -106,6 +106,29 @@ NOTES = {
     ("seed5", "C37"): "caught after part B was added: the handling of one disconnect explored callback by callback with a slow/broken subscriber of the active-users topics and an engine registering after every number of callbacks",
     ("seed5", "C38"): "caught after names built from tokens with percent escapes (%41, %2F, %2f, %25) were added",
     ("seed5", "C41"): "caught after the family 'macro whose body contains a Block, called two or three times' was added",
+    ("seed6", "C01"): "caught after threshold-only changes of started / executed / once-executed lines and macros that are called twice were added",
+    ("seed6", "C02"): "caught after the oracle 'a plain predecessor (Mark, Wait, End block) has completed - not merely been left - before the next line is visited' was added",
+    ("seed6", "C03"): "caught after the second-run family was added (run stopped while running / paused / on hold, started again; marks by offset compared with a plain second run); the family exposed the Scope Time defect repaired in 47be9910",
+    ("seed6", "C06"): "caught after the oracle 'the reported control state does not say paused / on hold while no run is active' was added",
+    ("seed6", "C08"): "caught after errors arriving while the run is on hold / paused (user command that raises) were added and the known error-pause finding was narrowed to 'command started in the error tick'",
+    ("seed6", "C09"): "caught after a method with an Unpause instruction (executes although the run is not paused) was added",
+    ("seed6", "C11"): "caught after a command whose finalizer raises (FinBoom) was added to the harness UOD; this exposed the instance leak repaired in 44a90551",
+    ("seed6", "C15"): "caught after the deviation 'the unchanged method is saved again before tick 1' (plain set after Start) was added",
+    ("seed6", "C16"): "caught after the UOD and engine objects were constructed 3 s (virtual) before engine start; this exposed the uod-tag time defect repaired in c45d0ab1; the sub-agent's patch was rebased onto that repair (patch.orig.diff is the original)",
+    ("seed6", "C17"): "caught after lines indented with a tab / two spaces and a tab were added to the alphabets",
+    ("seed6", "C19"): "caught after lines that are not instructions at all (': 5', '-Mark: a') were added",
+    ("seed6", "C20"): "caught after Base arguments that end / begin with a registered unit (mins, 2 min, sx) were added",
+    ("seed6", "C22"): "caught after an item with the other characters re.escape escapes (&, #, ~) was added",
+    ("seed6", "C24"): "caught after the third exploration was added: a batch whose first register is unmodified fails, the outage ends with a write of a register outside the batch (W3)",
+    ("seed6", "C25"): "caught after composites that were never connected / were disconnected again (layers usable) were added",
+    ("seed6", "C27"): "caught after reconnects went through the real registration routine (_register_for_engine_id_async) instead of a stub",
+    ("seed6", "C28"): "caught after the third exploration with 'kill' (aggregator dies without shutdown handling and restarts on the same database) was added",
+    ("seed6", "C29"): "caught after a Mark (system tag) reported between two samples was added",
+    ("seed6", "C31"): "caught after the engine's own stale method report (MethodMsg) delivered between / during the saves was added",
+    ("seed6", "C32"): "caught after engines with two recent runs whose required roles differ were added",
+    ("seed6", "C36"): "caught after programs with a UOD command that raises inside the command manager's tick were added to the C16/C36 corpus",
+    ("seed6", "C37"): "caught after every second connection listed the dead-man-switch topic last in its subscribe call",
+    ("seed6", "C38"): "caught after the third BFS with registrations from an engine of another version (with / without the ignore flag) was added",
 }
 
 
@@ -143,8 +166,10 @@ def main():
             os.makedirs(d, exist_ok=True)
             shutil.copy(f"{src}/{pid}.patch.diff", os.path.join(d, "patch.diff"))
             shutil.copy(f"{src}/{pid}.demo_test.py", os.path.join(d, "demo_test.py"))
+            if os.path.exists(f"{src}/{pid}.patch.orig.diff"):
+                shutil.copy(f"{src}/{pid}.patch.orig.diff", os.path.join(d, "patch.orig.diff"))
             out_meta = {
-                "property": pid, "wave": {"seed": 1, "seed2": 2, "seed3": 3, "seed4": 4, "seed5": 5}[wave], "caught_by_check": other or pid,
+                "property": pid, "wave": {"seed": 1, "seed2": 2, "seed3": 3, "seed4": 4, "seed5": 5, "seed6": 6}[wave], "caught_by_check": other or pid,
                 "check_on_final_head": head_line[:600],
                 "summary": meta.get("summary"), "files": meta.get("files"),
                 "needs_to_manifest": meta.get("needs_to_manifest"),
@@ -174,11 +199,11 @@ def main():
                 "Each directory holds `patch.diff` (apply with `git -C /repo apply`, undo with `git -C /repo checkout -- .`), the sub-agent's\n"
                 "demonstration `demo_test.py` (run as a plain script from the patched tree: passes without, fails with the change) and\n"
                 "`meta.json` (what it needs to manifest, what the sub-agent ran, what I ran to confirm it, which signatures the check reports,\n"
-                "and what had to be strengthened before the check caught it).  `Cxx` = first wave, `Cxx-2` = second wave, `Cxx-3` = third wave, `Cxx-4` = fourth wave, `Cxx-5` = fifth wave.  None of these\n"
+                "and what had to be strengthened before the check caught it).  `Cxx` = first wave, `Cxx-2` = second wave, `Cxx-3` = third wave, `Cxx-4` = fourth wave, `Cxx-5` = fifth wave, `Cxx-6` = sixth wave.  None of these\n"
                 "changes is committed to `/repo`.\n\n"
                 "| seed | check | file(s) | change | signatures reported (first 3) | strengthened first |\n|---|---|---|---|---|---|\n")
         for name, pid, files, summary, sigs in rows:
-            wave = "seed5" if name.endswith("-5") else "seed4" if name.endswith("-4") else "seed3" if name.endswith("-3") else "seed2" if name.endswith("-2") else "seed"
+            wave = "seed6" if name.endswith("-6") else "seed5" if name.endswith("-5") else "seed4" if name.endswith("-4") else "seed3" if name.endswith("-3") else "seed2" if name.endswith("-2") else "seed"
             note = NOTES.get((wave, pid), "") or ("" if summary.startswith("NOT") or summary.startswith("not") else "no (caught by the first version)")
             f.write(f"| {name} | {pid} | {files} | {summary.replace('|', '/')} | {sigs.replace('|', '/')} | {note} |\n")
     kept = sum(1 for r in rows if not r[3].startswith(("NOT", "not")))
